@@ -1,4 +1,5 @@
 """C02 - expression tables equal the documented weighting of reported read assignments."""
+import os
 from collections import defaultdict, OrderedDict
 
 from hypothesis import strategies as st
@@ -132,6 +133,9 @@ def check_tpm(name, counts_path, tpm_path, norm, ctx, case):
 
 def evaluate(case, ctx):
     sc = case
+    if sc.get("template") and "--debug" not in sc["opts"]:
+        # cases of the split stage saved before the regions were read from the log
+        sc = dict(sc, opts=list(sc["opts"]) + ["--debug"])
     res = pipeline.run_case(sc, ctx)
     try:
         tsvp, bedp = res.path("read_assignments.tsv"), res.path("corrected_reads.bed")
@@ -150,6 +154,22 @@ def evaluate(case, ctx):
         unmapped = sum(1 for r in sc["reads"] if r.get("c") is None)
         n_amb = n_inc = 0
         nz_feats = 0
+        # reads that cross a split point of their cluster (regions are logged under --debug) and the features that their
+        # merged multi-feature records name
+        crossing_feats = {"transcript": set(), "gene": set()}
+        if sc.get("template") and "--debug" in sc["opts"]:
+            regions = parse.log_regions(os.path.join(res.out, "isoquant.log"))
+            cuts = sorted(set(b for a, b in regions))
+            cross = set()
+            for r_ in sc["reads"]:
+                if r_.get("c") is not None and any(r_["p"] + 1 <= c_ <= R.ref_end_of(r_) - 1 for c_ in cuts):
+                    cross.add(r_["n"])
+            for key_, rws_ in records.items():
+                if key_[0] in cross:
+                    for lv, col in (("transcript", "isoform"), ("gene", "gene")):
+                        fs_ = set(x[col] for x in rws_ if x[col] != ".")
+                        if len(fs_) >= 2:
+                            crossing_feats[lv] |= fs_
         for level, path, strategy, ann in (("transcript", tcp, sc["tq"], ann_t), ("gene", gcp, sc["gq"], ann_g)):
             table = parse.counts_simple(path)
             exp, specials, contrib, multi = counting.expected_counts(records, level, strategy)
@@ -216,7 +236,7 @@ def evaluate(case, ctx):
                 if v != 0 and abs(v - e) > tol:
                     if abs(v - alt.get(f, 0.0)) <= tol and any(f in contrib[r][1] for r in multi):
                         sig = "C02:multi-locus-read-counted-at-every-locus:" + level
-                    elif sc.get("template") and abs(v - alt_split.get(f, 0.0)) <= tol:
+                    elif sc.get("template") and e - tol <= v <= alt_split.get(f, 0.0) + tol and f in crossing_feats[level]:
                         # root cause of the recorded split-point findings (C13, C05, C04): one alignment that crosses a
                         # split point of its cluster is processed in both regions, against the genes of that region
                         # only; each region counts it as a read of its own before the two records are merged
@@ -329,7 +349,7 @@ def split_scenarios(draw):
     norm = draw(st.sampled_from(["simple", "usable_reads"]))
     sc["opts"] = ["--data_type", draw(st.sampled_from(["nanopore", "pacbio_ccs"])), "--no_gzip", "--threads", "1",
                   "--transcript_quantification", tq, "--gene_quantification", gq, "--normalization_method", norm,
-                  "--no_model_construction"]
+                  "--no_model_construction", "--debug"]
     if draw(st.booleans()):
         sc["opts"] += ["--high_memory"]
     sc["tq"], sc["gq"], sc["norm"], sc["models"] = tq, gq, norm, False
